@@ -41,6 +41,7 @@ enum El {
     Str(&'static str),                                      // `"a" >bitstr` .. `n bytes bitstr>utf8`
     Bytes(Vec<u8>),                                         // `[ 0 255 ] >bitstr` .. `n bytes`
     Byte(u8),                                               // a bare integer 0..255 directly in the vector handed to `>bitstr` .. `1 bytes`
+    TByte(u8),                                              // the same, the integer carrying tags (as every value read from an input does)
 }
 
 const PARENT: [u8; 3] = [0xa5, 0x3c, 0x96];
@@ -116,6 +117,7 @@ impl El {
             El::Str(_) => "string",
             El::Bytes(_) => "byte-list",
             El::Byte(_) => "bare-byte",
+            El::TByte(_) => "tagged-byte",
         }
     }
     fn width(&self) -> usize {
@@ -126,7 +128,7 @@ impl El {
             El::RawSlice { n, .. } => *n,
             El::Str(s) => s.len() * 8,
             El::Bytes(b) => b.len() * 8,
-            El::Byte(_) => 8,
+            El::Byte(_) | El::TByte(_) => 8,
         }
     }
     /// byte order mode of a numeric field (None for the rest)
@@ -161,6 +163,7 @@ impl El {
             El::Str(s) => format!("\"{}\" >bitstr", s),
             El::Bytes(b) => format!("[ {}] >bitstr", b.iter().map(|x| format!("{} ", x)).collect::<String>()),
             El::Byte(b) => format!("[ {} ] >bitstr", b),
+            El::TByte(b) => format!("[ {} ^hex ] >bitstr", b),
         }
     }
     /// the element as a member of a vector handed to `>bitstr` (strings and byte lists stay bare)
@@ -169,6 +172,7 @@ impl El {
             El::Str(s) => format!("\"{}\"", s),
             El::Bytes(b) => format!("[ {}]", b.iter().map(|x| format!("{} ", x)).collect::<String>()),
             El::Byte(b) => format!("{}", b),
+            El::TByte(b) => format!("{} ^hex", b),
             other => other.pack_src(),
         }
     }
@@ -184,7 +188,7 @@ impl El {
             El::RawSlice { n, .. } => format!("{} bits", n),
             El::Str(s) => format!("{} bytes bitstr>utf8", s.len()),
             El::Bytes(b) => format!("{} bytes", b.len()),
-            El::Byte(_) => "1 bytes".into(),
+            El::Byte(_) | El::TByte(_) => "1 bytes".into(),
         }
     }
     fn expect_val(&self) -> Option<Val> {
@@ -196,7 +200,7 @@ impl El {
             El::RawSlice { k, n } => Val::Bits(bytes_bits(&PARENT)[*k..*k + *n].to_vec()),
             El::Str(s) => Val::Str(s.to_string()),
             El::Bytes(b) => Val::Bits(bytes_bits(b)),
-            El::Byte(b) => Val::Bits(bytes_bits(&[*b])),
+            El::Byte(b) | El::TByte(b) => Val::Bits(bytes_bits(&[*b])),
         })
     }
     /// bits of the field where the layout is defined without looking at the implementation
@@ -235,7 +239,7 @@ impl El {
             El::RawSlice { k, n } => Some(bytes_bits(&PARENT)[*k..*k + *n].to_vec()),
             El::Str(s) => Some(bytes_bits(s.as_bytes())),
             El::Bytes(b) => Some(bytes_bits(b)),
-            El::Byte(b) => Some(bytes_bits(&[*b])),
+            El::Byte(b) | El::TByte(b) => Some(bytes_bits(&[*b])),
         }
     }
 }
@@ -327,6 +331,7 @@ fn alphabets(seed: u64) -> (Vec<El>, Vec<usize>, Vec<usize>) {
     push(&mut full, El::Bytes(vec![0, 255]), true, true);
     push(&mut full, El::Byte(0x89), true, true);
     push(&mut full, El::Byte(10), false, false);
+    push(&mut full, El::TByte(0xc3), true, true);
     // the seed only adds members to the value alphabet (full alphabet); the product is still complete
     if seed != 0 {
         for i in 0..4u64 {
